@@ -16,6 +16,7 @@ type fieldCase struct {
 	Formats []string
 	Aux     map[string]string // auxiliary packages (directory -> source)
 	Imports []string
+	Custom  map[string]string // pairs served by custom functions
 }
 
 func fs(path ...string) *FieldSpec { return &FieldSpec{Path: path} }
@@ -166,7 +167,31 @@ func fieldCases() []fieldCase {
 			Pairs: map[string]*PairSpec{"PFXIn→PFXOut": {IgnoreMissing: true, Fields: map[string]*FieldSpec{"Οδος": fs("ΟΔΟΣ")}}}},
 		{Name: "fail_ignorecase_lowercase_only_match", Decls: "type PFXIn struct {\n\tİd string\n\tN int\n}\ntype PFXOut struct {\n\tID string\n\tN int\n}\n", Src: "PFXIn", Tgt: "PFXOut",
 			Lines: []string{"matchIgnoreCase"}, Fail: "source name equals the target name only after lower-casing (no case-folding match)"},
+		// field settings on a *S -> T method whose useZeroValueOnPointerInconsistency is written on that method only:
+		// another method converting S -> T in a field would bypass them - reported, whatever flags that other method has
+		{Name: "fail_overlap_source_pointer_method_flag", Decls: "type PFXS struct {\n\tFullName string\n\tName string\n}\ntype PFXT struct{ Name string }\ntype PFXW struct{ Item PFXS }\ntype PFXWT struct{ Item PFXT }\n", Src: "*PFXS", Tgt: "PFXT",
+			Lines: []string{"useZeroValueOnPointerInconsistency", "map FullName Name"}, Extra: "\tPFXInner(source PFXW) PFXWT\n",
+			Fail: "field settings (map) on a *S -> T method that another method's S -> T conversion bypasses"},
+		// a setting that names a target field which does not exist is reported also when no target field reads the source
+		{Name: "fail_unknown_ignore_when_every_field_is_ignored", Decls: "type PFXIn struct{ Name string }\ntype PFXOut struct {\n\tName string\n\tAge int\n}\n", Src: "PFXIn", Tgt: "PFXOut",
+			Lines: []string{"ignore Name Age", "ignore Typo"}, Fail: "ignore names a target field that does not exist (all real fields are ignored)"},
+		{Name: "fail_unknown_map_target_on_empty_struct", Decls: "type PFXIn struct{ Name string }\ntype PFXOut struct{}\n", Src: "PFXIn", Tgt: "PFXOut",
+			Lines: []string{"map Name Typo"}, Fail: "map names a target field that does not exist (the target struct has no fields)"},
+		{Name: "fail_unknown_mapfunc_target_when_fields_filled_by_noarg_func", Decls: "type PFXIn struct{ Name string }\ntype PFXOut struct{ Stamp string }\nfunc PFXNow() string { return \"\" }\n", Src: "PFXIn", Tgt: "PFXOut",
+			Lines: []string{"map Stamp | PFXNow", "map Typo | PFXNow"}, Fail: "map|FUNC names a target field that does not exist (no field reads the source)"},
 		// field settings on a method that hands the whole conversion to an extend function of its own signature
+		// ... and on a method over pointers to the structs, when an extend function exists for the struct pair itself
+		{Name: "fail_settings_bypassed_by_extend_ptr_ptr", Decls: "type PFXIn struct {\n\tName string\n\tFullName string\n}\ntype PFXOut struct{ Name string }\nfunc PFXWhole(in PFXIn) PFXOut { return PFXOut{} }\n", Src: "*PFXIn", Tgt: "*PFXOut",
+			Conv: []string{"extend PFXWhole"}, Lines: []string{"map FullName Name"}, Fail: "field settings on a *S -> *T method whose struct pair is converted by an extend function"},
+		{Name: "fail_settings_bypassed_by_extend_val_ptr", Decls: "type PFXIn struct {\n\tName string\n\tFullName string\n}\ntype PFXOut struct{ Name string }\nfunc PFXWhole(in PFXIn) PFXOut { return PFXOut{} }\n", Src: "PFXIn", Tgt: "*PFXOut",
+			Conv: []string{"extend PFXWhole"}, Lines: []string{"ignore Name"}, Fail: "field settings on a S -> *T method whose struct pair is converted by an extend function"},
+		{Name: "fail_settings_bypassed_by_extend_ptr_val", Decls: "type PFXIn struct {\n\tName string\n\tFullName string\n}\ntype PFXOut struct{ Name string }\nfunc PFXWhole(in PFXIn) PFXOut { return PFXOut{} }\n", Src: "*PFXIn", Tgt: "PFXOut",
+			Conv: []string{"extend PFXWhole", "useZeroValueOnPointerInconsistency"}, Lines: []string{"map FullName Name"}, Fail: "field settings on a *S -> T method whose struct pair is converted by an extend function"},
+		// (an extend function for *another* source struct does not bypass anything)
+		{Name: "settings_kept_next_to_extend_for_other_source", Decls: "type PFXIn struct {\n\tName string\n\tFullName string\n\tPrev []PFXOld\n}\ntype PFXOld struct{ Name string }\ntype PFXOut struct {\n\tName string\n\tPrev []PFXOut\n}\nfunc PFXFromOld(in PFXOld) PFXOut { return PFXOut{} }\n", Src: "PFXIn", Tgt: "PFXOut",
+			Conv: []string{"extend PFXFromOld"}, Lines: []string{"map FullName Name"},
+			Pairs:  map[string]*PairSpec{"PFXIn→PFXOut": {Fields: map[string]*FieldSpec{"Name": fs("FullName")}}},
+			Custom: map[string]string{"PFXOld→PFXOut": "PFXFromOld"}},
 		{Name: "fail_settings_on_delegating_method_map", Decls: "type PFXIn struct {\n\tName string\n\tFullName string\n}\ntype PFXOut struct{ Name string }\nfunc PFXWhole(in PFXIn) PFXOut { return PFXOut{} }\n", Src: "PFXIn", Tgt: "PFXOut",
 			Conv: []string{"extend PFXWhole"}, Lines: []string{"map FullName Name"}, Fail: "field settings (map) on a method that delegates to an extend function of the same signature"},
 		{Name: "fail_settings_on_delegating_method_ignore", Decls: "type PFXIn struct{ Name string }\ntype PFXOut struct {\n\tName string\n\tKeep int\n}\nfunc PFXWhole(in *PFXIn) *PFXOut { return nil }\n", Src: "*PFXIn", Tgt: "*PFXOut",
@@ -248,7 +273,7 @@ func FamilyField(thorough bool) []*Conv {
 				MethodLines:  fc.Lines,
 				ConvLines:    fc.Conv,
 				ExtraMethods: extra,
-				Spec:         &Spec{Pairs: fc.Pairs, ZeroOnNil: fc.ZeroNil},
+				Spec:         &Spec{Pairs: fc.Pairs, ZeroOnNil: fc.ZeroNil, Custom: fc.Custom},
 				ExpectFail:   fc.Fail != "",
 				FailNote:     fc.Fail,
 				Aux:          fc.Aux,
